@@ -365,7 +365,8 @@ func vbC12Main(shard, nshards int, tier string) {
 					}
 					desc := fmt.Sprintf("http-response %s/%s response=%d (framed %d) limit=%d", proto, shape, R, R+4, limit)
 					res.note("http-response", desc, R > limit)
-					proc, _ := vbBigProcessor(func() thrift.TStruct { return args })
+					var reply thrift.TStruct = args
+					proc, _ := vbBigProcessor(func() thrift.TStruct { return reply })
 					rt := &vbHandlerRT{h: NewFrugalHandlerFunc(proc, pf)}
 					tr := NewFHTTPTransportBuilder(&http.Client{Transport: rt}, "http://x/frugal").WithResponseSizeLimit(uint(limit)).Build()
 					cl := NewFStandardClient(NewFServiceProvider(tr, pf))
@@ -375,6 +376,28 @@ func vbC12Main(shard, nshards int, tier string) {
 						res.fail("C12/response-limit-not-reported/http/"+proto+"/"+shape, desc+": caller saw "+got)
 					case R+4 <= limit && got != "ok":
 						res.fail("C12/response-within-limit-rejected/http/"+proto+"/"+shape, desc+": "+got)
+					}
+					if R > limit {
+						// the same handler keeps serving: a small reply under a generous limit, and one
+						// without a limit, which must be that request's own reply and nothing else
+						reply = &vbShape{s1: "tiny"}
+						frt := &vbHandlerRT{h: NewFrugalHandlerFunc(proc, pf)}
+						if e0 := vbErrType(NewFStandardClient(NewFServiceProvider(NewFHTTPTransportBuilder(&http.Client{Transport: frt}, "http://x/frugal").Build(), pf)).Call(vbNewCtx(), "big", small, &vbShape{})); e0 != "ok" {
+							res.fail("C12/unlimited-response-failed/http/"+proto+"/tiny", e0)
+							continue
+						}
+						T64 := frt.lastResp // what a fresh handler answers: base64 of the framed tiny reply, so above its raw size
+						tr2 := NewFHTTPTransportBuilder(&http.Client{Transport: rt}, "http://x/frugal").WithResponseSizeLimit(uint(T64)).Build()
+						if e2 := vbErrType(NewFStandardClient(NewFServiceProvider(tr2, pf)).Call(vbNewCtx(), "big", small, &vbShape{})); e2 != "ok" {
+							res.fail("C12/server-broken-after-oversize/http/"+proto, fmt.Sprintf("%s: afterwards a tiny reply under a limit of %d that a fresh handler meets: %s", desc, T64, e2))
+						}
+						tr3 := NewFHTTPTransportBuilder(&http.Client{Transport: rt}, "http://x/frugal").Build()
+						var back vbShape
+						if e3 := vbErrType(NewFStandardClient(NewFServiceProvider(tr3, pf)).Call(vbNewCtx(), "big", small, &back)); e3 != "ok" {
+							res.fail("C12/server-broken-after-oversize/http/"+proto, desc+": a small reply without limit afterwards: "+e3)
+						} else if rt.lastResp != T64 {
+							res.fail("C12/reply-carries-earlier-oversize-reply/http/"+proto, fmt.Sprintf("%s: the unlimited follow-up request got a %d-byte answer where a fresh handler sends %d bytes", desc, rt.lastResp, T64))
+						}
 					}
 				}
 			}
